@@ -545,9 +545,13 @@ func scenarios(thorough bool) []scenario {
 	}
 	for _, ph := range phases {
 		var wd *world // kept across executions; rebuilt after any execution that did not end cleanly
+		nexec := 0
 		out = append(out, scenario{Name: fmt.Sprintf("onboard %s x%d %v stmt-yields=%v", ph.name, ph.n, ph.algs, ph.stmt), Bound: ph.bound, Delay: true,
 			run: func(choose vsync.Chooser) (vsync.Result, [][2]string, string) {
 				to2like := ph.name == "to2" || ph.name == "mixed"
+				if nexec++; nexec%worldLife == 0 {
+					wd = nil // journals and wire logs grow with every execution: start over regularly
+				}
 				if wd == nil || !to2like {
 					wd = newWorld(ph.n, ph.algs, ph.name != "di")
 					if ph.name == "to1" || to2like {
@@ -664,8 +668,12 @@ func scenarios(thorough bool) []scenario {
 			fb = 3
 		}
 		var wd *world
+		nexec := 0
 		out = append(out, scenario{Name: fmt.Sprintf("to2 transport fails at message %d", at), Bound: fb, Delay: true,
 			run: func(choose vsync.Chooser) (vsync.Result, [][2]string, string) {
+				if nexec++; nexec%worldLife == 0 {
+					wd = nil
+				}
 				if wd == nil {
 					wd = newWorld(1, []string{"ec256"}, true)
 				}
@@ -700,8 +708,12 @@ func scenarios(thorough bool) []scenario {
 		done  bool
 	}{{1, false}, {1, true}, {2, false}, {2, true}, {0, true}} {
 		var wd *world
+		nexec := 0
 		out = append(out, scenario{Name: fmt.Sprintf("to2 pipeline: device module shape %d, owner done with its last data=%v", sh.shape, sh.done), Bound: 1, Delay: true,
 			run: func(choose vsync.Chooser) (vsync.Result, [][2]string, string) {
+				if nexec++; nexec%worldLife == 0 {
+					wd = nil
+				}
 				if wd == nil {
 					wd = newWorld(1, []string{"ec256"}, true)
 					wd.devShape, wd.doneWithData = sh.shape, sh.done
@@ -766,19 +778,32 @@ func firstLine(s string) string {
 	return s
 }
 
+// worldLife: executions after which a scenario's deployment is rebuilt (bounds the memory its journals and logs take)
+const worldLife = 150
+
 // scenarioBudget: wall-clock budget of one scenario in one shard; reaching it is reported as a cap, never as a pass
 // of the whole space.
 func scenarioBudget(thorough bool) time.Duration {
 	if thorough {
-		return 40 * time.Minute
+		return 8 * time.Minute
 	}
-	return 8 * time.Minute
+	return 4 * time.Minute
 }
 
 func schedulesShard(shard, n int, thorough bool) *schedshard.Report {
 	rep := &schedshard.Report{}
+	shardStart := time.Now()
+	overall := 25 * time.Minute
+	if thorough {
+		overall = 80 * time.Minute
+	}
 	for si, sc := range scenarios(thorough) {
 		if only := os.Getenv("VERIF_ONLY"); only != "" && !strings.Contains(sc.Name, only) {
+			continue
+		}
+		if time.Since(shardStart) > overall {
+			rep.Capped = append(rep.Capped, fmt.Sprintf("scenario %q: not explored by shard %d, the overall wall-clock budget of the schedule exploration was used up", sc.Name, shard))
+			rep.Scenarios = append(rep.Scenarios, schedshard.Scenario{Name: sc.Name, Bound: sc.Bound, Outcomes: map[string]int{}})
 			continue
 		}
 		t0 := time.Now()
